@@ -250,6 +250,7 @@ pub fn strategy() -> BoxedStrategy<Case> {
                 ops,
                 tail_ms,
                 forced_wakes,
+                resolve_hosts: vec![],
             }
         })
         .boxed()
